@@ -37,9 +37,11 @@ NInc(n)     == CASE n[1] = "lo"  -> NLo(n[2] + 1)
 (*              starts as the zero-padded name instead of its hash        *)
 (*   validates: the DH function rejects byte strings that are not public  *)
 (*   keys (P-256 point decoding); X25519 accepts any 32 bytes.            *)
-PP(pat, psks, publen, initpad) ==
+(*   hfs      : the name carries the hfs modifier (and a KEM)              *)
+PPH(pat, psks, publen, initpad, hfs) ==
   [pat |-> pat, psks |-> psks, publen |-> publen, initpad |-> initpad,
-   validates |-> publen # 32]
+   validates |-> publen # 32, hfs |-> hfs]
+PP(pat, psks, publen, initpad) == PPH(pat, psks, publen, initpad, FALSE)
 
 NameAtom == Atom("name", 0)       \* its length never matters: it is only ever hashed or padded
 
@@ -103,11 +105,14 @@ Initialize(id, role, pp, cfg) ==
        re |-> None,  re_on |-> FALSE,
        psk |-> cfg.psk,
        c1 |-> NoCipher, c2 |-> NoCipher,
-       rng |-> 0 ]
+       rng |-> 0,
+       \* hfs: own KEM key pair (generated when "e1" is written), the peer's KEM public key (read from "e1"),
+       \* numbers of key generations / encapsulations so far (they name the oracle terms)
+       kem |-> None, kem_re |-> None, kgen |-> 0, kenc |-> 0 ]
 
 NMsgs(st)     == NumMsgs(st.pp.pat)
 Finished(st)  == st.pos = NMsgs(st)
-CurTokens(st) == MsgTokens(st.pp.pat, st.pp.psks, st.pos + 1)
+CurTokens(st) == MsgTokensH(st.pp.pat, st.pp.psks, st.pp.hfs, st.pos + 1)
 FLen(st, t)   == TLen(t, st.pp.publen)
 MsgLen(st, fields) == SumLen(fields, st.pp.publen)
 
@@ -161,6 +166,19 @@ WToks(st, toks, idx, fields, buflen) ==
         LET d == DhStep(st, t) IN
         IF d.cause # "none" THEN WRes(st, idx, fields, "W_" \o d.cause)
         ELSE WToks([st EXCEPT !.ss = d.ss], rest, idx, fields, buflen)
+    [] t = "e1" ->       \* hfs: a fresh KEM key pair; its public key goes through EncryptAndHash
+        IF idx + KEMPUBLEN + (IF st.ss.hk THEN TAGLEN ELSE 0) > buflen THEN WRes(st, idx, fields, "W_BUF_E1")
+        ELSE LET sk == KemSk(st.id, st.kgen)
+                 r  == EncryptAndHash(st.ss, KemPub(sk))
+             IN WToks([st EXCEPT !.kem = sk, !.kgen = @ + 1, !.ss = r.ss], rest, idx + FLen(st, r.out),
+                      Append(fields, r.out), buflen)
+    [] t = "ekem1" ->    \* hfs: encapsulate to the peer's KEM key; ciphertext through EncryptAndHash, secret into MixKey
+        IF idx + KEMCTLEN + (IF st.ss.hk THEN TAGLEN ELSE 0) > buflen THEN WRes(st, idx, fields, "W_BUF_EKEM")
+        ELSE LET ct == KemCt(st.kem_re, st.id, st.kenc)
+                 sec == KemSs(st.kem_re, st.id, st.kenc)
+                 r  == EncryptAndHash(st.ss, ct)
+             IN WToks([st EXCEPT !.kenc = @ + 1, !.ss = MixKey(r.ss, sec)], rest, idx + FLen(st, r.out),
+                      Append(fields, r.out), buflen)
 
 (* WriteMessage(st, payload, buflen):                                      *)
 (*   cause = "none"   : success; st is the new state                       *)
@@ -227,6 +245,18 @@ RToks(st, toks, off, msg, msglen) ==
         LET d == DhStep(st, t) IN
         IF d.cause # "none" THEN RRes(st, off, "R_" \o d.cause)
         ELSE RToks([st EXCEPT !.ss = d.ss], rest, off, msg, msglen)
+    [] t = "e1" ->
+        LET need == KEMPUBLEN + (IF st.ss.hk THEN TAGLEN ELSE 0) IN
+        IF msglen - off < need THEN RRes(st, off, "R_SHORT_E1")
+        ELSE LET r == DecryptAndHash(st.ss, take(need)) IN
+             IF ~r.ok THEN RRes(st, off, "R_AUTH_E1")
+             ELSE RToks([st EXCEPT !.kem_re = r.pt, !.ss = r.ss], rest, off + need, msg, msglen)
+    [] t = "ekem1" ->
+        LET need == KEMCTLEN + (IF st.ss.hk THEN TAGLEN ELSE 0) IN
+        IF msglen - off < need THEN RRes(st, off, "R_SHORT_EKEM")
+        ELSE LET r == DecryptAndHash(st.ss, take(need)) IN
+             IF ~r.ok THEN RRes(st, off, "R_AUTH_EKEM")
+             ELSE RToks([st EXCEPT !.ss = MixKey(r.ss, Decap(r.pt, st.kem))], rest, off + need, msg, msglen)
 
 (* ReadMessage(st, msg, outlen): msg is a sequence of fields              *)
 ReadMessage(st, msg, outlen) ==
@@ -344,6 +374,8 @@ KindsOf(cause) ==
     [] cause = "W_TURN_FINISHED"  -> {"State(NotTurnToWrite)", "State(HandshakeAlreadyFinished)"}
     [] cause = "W_BUF_E"          -> {"Input"}
     [] cause = "W_BUF_S"          -> {"Input"}
+    [] cause = "W_BUF_E1"         -> {"Input"}
+    [] cause = "W_BUF_EKEM"       -> {"Input"}
     [] cause = "W_NO_S"           -> {"State(MissingKeyMaterial)"}
     [] cause = "W_NO_PSK"         -> {"State(MissingPsk)"}
     [] cause = "W_NO_KEY_DH"      -> {"State(MissingKeyMaterial)"}
